@@ -71,7 +71,7 @@ func NewReadWriteMultipleRegistersRequestTCP(
 	if writeByteCount%2 != 0 {
 		return nil, errors.New("write data length must be even number of bytes")
 	}
-	writeRegisterCount := uint16(writeByteCount / 2)
+	writeRegisterCount := writeByteCount / 2 // int: converting before range check would accept oversized data
 	if writeRegisterCount == 0 || writeRegisterCount > 124 {
 		return nil, fmt.Errorf("write registers count out of range (1-124): %v", writeRegisterCount)
 	}
@@ -188,7 +188,7 @@ func NewReadWriteMultipleRegistersRequestRTU(
 	if writeByteCount%2 != 0 {
 		return nil, errors.New("write data length must be even number of bytes")
 	}
-	registerCount := uint16(writeByteCount / 2)
+	registerCount := writeByteCount / 2 // int: converting before range check would accept oversized data
 	if registerCount == 0 || registerCount > 124 {
 		return nil, fmt.Errorf("write registers count out of range (1-124): %v", registerCount)
 	}
